@@ -4,6 +4,7 @@ import (
 	"bytes"
 	"context"
 	"fmt"
+	"github.com/cloudwego/dynamicgo/thrift/base"
 	"math"
 
 	"github.com/cloudwego/dynamicgo/conv"
@@ -81,8 +82,20 @@ func runC03(w *W) {
 	so := tgenOpts{MaxStructs: 1 + t.Intn(4, "sch.structs"), MaxFields: 1 + t.Intn(8, "sch.fields"), MaxDepth: 1 + t.Intn(3, "sch.depth"),
 		BigIDs: t.Chance(1, 3, "sch.bigids"), Aliases: t.Chance(1, 3, "sch.alias"), Recursive: t.Chance(1, 3, "sch.rec"), JSConv: t.Chance(1, 3, "sch.jsconv")}
 	sch := genSchema(t, so)
-	desc := parseThrift(w, sch, thrift.Options{})
-	opts := conv.Options{Int642String: t.Chance(1, 3, "opt.i2s"), ByteAsUint8: t.Chance(1, 3, "opt.u8"), NoBase64Binary: t.Chance(1, 5, "opt.nob64"),
+	po := thrift.Options{}
+	// thrift response base: a root field of type base.BaseResp is extracted into the object the caller put
+	// into the context, and left out of the JSON
+	respBase := t.Chance(1, 8, "sch.respbase") && sch.Root.St.ByID(255) == nil
+	if respBase {
+		sch.AddInclude("base.thrift", baseIDL)
+		sch.Root.St.RawFields = append(sch.Root.St.RawFields, "255: base.BaseResp BaseResp")
+		sch.IDL = renderIDL(sch)
+		po.EnableThriftBase = true
+		w.Count("worlds_with_response_base")
+		w.Sig("respbase")
+	}
+	desc := parseThrift(w, sch, po)
+	opts := conv.Options{EnableThriftBase: respBase, Int642String: t.Chance(1, 3, "opt.i2s"), ByteAsUint8: t.Chance(1, 3, "opt.u8"), NoBase64Binary: t.Chance(1, 5, "opt.nob64"),
 		DisallowUnknownField: t.Chance(1, 5, "opt.du"), UseNativeSkip: t.Chance(1, 2, "opt.nativeskip"), EnableValueMapping: so.JSConv && t.Chance(2, 3, "opt.vm")}
 	jo := t2jOpts{Int642String: opts.Int642String, ByteAsUint8: opts.ByteAsUint8, NoBase64: opts.NoBase64Binary, ValueMapping: opts.EnableValueMapping}
 	cv := t2j.NewBinaryConv(opts)
@@ -109,6 +122,28 @@ func runC03(w *W) {
 			nunk = addUnknownThriftFields(t, val)
 		}
 		src := encodeThrift(nil, val)
+		var wantBase *base.BaseResp
+		if respBase {
+			wantBase = &base.BaseResp{StatusMessage: string(vgenStr(t, 40)), StatusCode: int32(t.Intn(1000, "respbase.code")) - 500}
+			bb := []byte{tSTRUCT, 0, 255, tSTRING, 0, 1, 0, 0, 0, byte(len(wantBase.StatusMessage))}
+			bb = append(bb, wantBase.StatusMessage...)
+			bb = append(bb, tI32, 0, 2, byte(uint32(wantBase.StatusCode)>>24), byte(uint32(wantBase.StatusCode)>>16), byte(uint32(wantBase.StatusCode)>>8), byte(uint32(wantBase.StatusCode)))
+			if t.Chance(1, 2, "respbase.extra") {
+				k, v := string(vgenStr(t, 8)), string(vgenStr(t, 100))
+				wantBase.Extra = map[string]string{k: v}
+				bb = append(bb, tMAP, 0, 3, tSTRING, tSTRING, 0, 0, 0, 1, 0, 0, 0, byte(len(k)))
+				bb = append(bb, k...)
+				bb = append(bb, 0, 0, 0, byte(len(v)))
+				bb = append(bb, v...)
+			}
+			bb = append(bb, 0)
+			// the field sits at a tape-chosen top-level position: in front, or right before the STOP byte
+			if t.Chance(1, 2, "respbase.front") {
+				src = append(bb, src...)
+			} else {
+				src = append(append(append([]byte{}, src[:len(src)-1]...), bb...), 0)
+			}
+		}
 		w.Logf("msg %d: %d bytes (unknown=%d nonfinite=%v) %x", d, len(src), nunk, nonFinite, clipb(src, 300))
 		// a failing conversion right before the checked one
 		if t.Chance(1, 4, "msg.prefail") && len(src) > 2 {
@@ -124,8 +159,25 @@ func runC03(w *W) {
 			w.NextOp(fmt.Sprintf("t2j msg %d env %s", d, env))
 			facts := map[string]string{"nonfinite": fmt.Sprint(nonFinite), "api_dointo": fmt.Sprint(env.DoInto)}
 			w.opFacts = facts
-			r := runT2J(w, &cv, desc, src, env, ctx, expLen)
+			cctx := ctx
+			var gotBase *base.BaseResp
+			if respBase {
+				gotBase = &base.BaseResp{}
+				cctx = context.WithValue(ctx, conv.CtxKeyThriftRespBase, gotBase)
+			}
+			r := runT2J(w, &cv, desc, src, env, cctx, expLen)
 			w.opFacts = nil
+			if respBase && r.Err == nil && !(nunk > 0 && opts.DisallowUnknownField) {
+				if gotBase.StatusMessage != wantBase.StatusMessage || gotBase.StatusCode != wantBase.StatusCode || len(gotBase.Extra) != len(wantBase.Extra) {
+					w.Failf("response-base-wrong", facts, "the response base extracted into the context is %+v, the message holds %+v (env %s)", *gotBase, *wantBase, env)
+				}
+				for k, v := range wantBase.Extra {
+					if gotBase.Extra[k] != v {
+						w.Failf("response-base-wrong", facts, "the response base extracted into the context is %+v, the message holds %+v (env %s)", *gotBase, *wantBase, env)
+					}
+				}
+				w.Count("response_base_extracted")
+			}
 			w.T.NoteBytes(r.Out)
 			if env.DoInto {
 				w.Sig(fmt.Sprintf("cap%d", env.CapMode))
